@@ -166,7 +166,7 @@ func c10Operations(p *Prog, f *ssa.Function) []*ssa.Function {
 
 func c10R1(c *Ctx) {
 	const R1 = "C10.R1.fs-effect-inventory"
-	c.Expect(R1, 19)
+	c.Expect(R1, 18)
 	fns := c.P.FuncsOfPkg(c08Pkg)
 	if len(fns) == 0 {
 		c.LostAnchor(R1, "package ~/content/oci")
@@ -196,17 +196,28 @@ func c10R1(c *Ctx) {
 		}
 	}
 	CheckInventory(c, R1, sites, c10InventoryTable())
-	// cleanup next to the publication may only remove the ingest file, never the published blob
-	for _, s := range raw {
-		if s.Callee != "os.Remove" || len(CallsTo(s.Fn, "os.Rename")) == 0 || len(c10IngestCalls(s.Fn)) == 0 {
-			continue
-		}
+	// cleanup around the publication may only remove the ingest file, never the published blob
+	if push := c.P.Fn(c08Pkg, "Storage.Push"); push != nil {
 		var ing ssa.Value
-		for _, ic := range c10IngestCalls(s.Fn) {
-			ing = ResultOf(ic, 0)
+		var ingest *ssa.Function
+		for _, ic := range c10IngestCalls(push) {
+			ing, ingest = ResultOf(ic, 0), StaticCallee(ic)
 		}
-		ok := ing != nil && c09SameKey(s.Call.Common().Args[0], ing)
-		c.Check(R1, c10opSPush+"|os.Remove|removes-only-the-ingest-file", s.Call.Pos(), ok, ifelse(ok, "the cleanup removes the path returned by ingest", "the cleanup in Push removes something else than the ingest file"))
+		for _, host := range c09ReachableInPkg(push, 2) {
+			if host == ingest || (ingest != nil && host.Parent() == ingest) || len(CallsTo(host, "os.Rename")) == 0 {
+				continue
+			}
+			for _, rmc := range CallsTo(host, "os.Remove") {
+				vals, okO := c09Origins(c.P, rmc.Common().Args[0], 2, push)
+				ok := ing != nil && okO && len(vals) > 0
+				for _, v := range vals {
+					if ing == nil || !c09SameKey(v, ing) {
+						ok = false
+					}
+				}
+				c.Check(R1, c10opSPush+"|os.Remove|removes-only-the-ingest-file", rmc.Pos(), ok, ifelse(ok, "the cleanup removes the path returned by ingest", "the cleanup in Push removes something else than the ingest file"))
+			}
+		}
 	}
 }
 
@@ -214,7 +225,8 @@ func c10R1(c *Ctx) {
 func c10IngestCalls(push *ssa.Function) []ssa.CallInstruction {
 	var out []ssa.CallInstruction
 	for _, call := range Calls(push, func(string) bool { return true }) {
-		if g := StaticCallee(call); g != nil && inModule(g) && len(CallsTo(g, "os.CreateTemp")) > 0 {
+		if g := StaticCallee(call); g != nil && g != push && inModule(g) && ErrResultIndex(g.Signature) >= 0 &&
+			reachesCall(g, 1, func(n string, _ ssa.CallInstruction) bool { return n == "os.CreateTemp" }) {
 			out = append(out, call)
 		}
 	}
@@ -388,44 +400,86 @@ func c10R3StoragePush(c *Ctx, R3 string) {
 	}
 	pn := FnName(push)
 	ings := c10IngestCalls(push)
-	renames := CallsTo(push, "os.Rename")
+	var renames []ssa.CallInstruction
+	for _, h := range c09ReachableInPkg(push, 2) {
+		if len(ings) == 1 && h == StaticCallee(ings[0]) {
+			continue
+		}
+		renames = append(renames, CallsTo(h, "os.Rename")...)
+	}
 	if len(ings) != 1 || len(renames) == 0 {
 		c.LostAnchor(R3, pn+": ingest helper call / os.Rename")
 		return
 	}
 	ic := ings[0]
 	ingest := StaticCallee(ic)
-	var okEdges []Edge
-	if e := ErrOf(ic); e != nil {
-		okEdges, _, _ = NilTests(push, Aliases(e))
+	ingested := func(fn *ssa.Function, _ c09Vals) []Edge {
+		var out []Edge
+		for _, x := range c10IngestCalls(fn) {
+			if e := ErrOf(x); e != nil {
+				ne, _, _ := NilTests(fn, Aliases(e))
+				out = append(out, ne...)
+			}
+		}
+		return out
 	}
 	tmp := ResultOf(ic, 0)
+	exp := c09DescObjOf(ic.Common().Args[1])
 	for _, rn := range renames {
-		ok := len(okEdges) > 0 && MustPass(rn.(ssa.Instruction), newCut().Edges(okEdges...))
+		ok := c09GuardedUp(c.P, rn.(ssa.Instruction), nil, ingested, 2)
 		c.Check(R3, pn+"|rename-after-successful-ingest", rn.Pos(), ok, ifelse(ok, "os.Rename into blobs/ is reached only on the nil edge of ingest's error", "a file can be renamed into blobs/ although writing/verifying it failed: a truncated or wrong blob becomes visible under its digest name"))
-		ok = tmp != nil && c09SameKey(rn.Common().Args[0], tmp)
+		srcs, okS := c09Origins(c.P, rn.Common().Args[0], 2, push)
+		ok = tmp != nil && okS && len(srcs) > 0
+		for _, sv := range srcs {
+			if tmp == nil || !c09SameKey(sv, tmp) {
+				ok = false
+			}
+		}
 		c.Check(R3, pn+"|rename-source-is-ingest-file", rn.Pos(), ok, ifelse(ok, "the renamed file is the path returned by ingest", "the file renamed into blobs/ is not the verified ingest file"))
 		// destination: blobPath(expected.Digest) of the descriptor handed to ingest
-		exp := c09DescObjOf(ic.Common().Args[1])
-		okDst := false
-		AllInstrs(push, func(in ssa.Instruction) {
-			if call, isCall := in.(*ssa.Call); isCall && len(call.Call.Args) == 1 && exp.fieldOf(call.Call.Args[0], "Digest") && c09Uses(rn.Common().Args[1], call, 0) {
-				okDst = true
+		dsts, okD := c09Origins(c.P, rn.Common().Args[1], 2, push)
+		okDst := okD && len(dsts) > 0
+		for _, dv := range dsts {
+			hit := false
+			AllInstrs(push, func(in ssa.Instruction) {
+				if call, isCall := in.(*ssa.Call); isCall && len(call.Call.Args) == 1 && exp.fieldOf(call.Call.Args[0], "Digest") && c09Uses(dv, call, 0) {
+					hit = true
+				}
+			})
+			if !hit {
+				okDst = false
 			}
-		})
+		}
 		c.Check(R3, pn+"|rename-target-named-by-verified-digest", rn.Pos(), okDst, ifelse(okDst, "the target path is computed from the digest of the descriptor the content was verified against", "the target path does not derive from the digest of the descriptor passed to ingest"))
 	}
 	// ingest: nil only after the verifying copy into the temp file succeeded
 	in := FnName(ingest)
-	copies := CallsTo(ingest, "~/internal/ioutil.CopyBuffer")
 	temps := CallsTo(ingest, "os.CreateTemp")
-	if len(copies) == 0 || len(temps) == 0 {
-		c.LostAnchor(R3, in+": ioutil.CopyBuffer (verifying copy) / os.CreateTemp")
+	if len(temps) == 0 {
+		c.LostAnchor(R3, in+": os.CreateTemp")
 		return
 	}
+	fp := ResultOf(temps[0], 0)
+	// the verifying copy into that file, against the expected descriptor — in ingest or in a helper extracted from it
+	copies := c09EffectSites(ingest, c09Identity, func(call ssa.CallInstruction, bind c09Bind) bool {
+		a := call.Common().Args
+		if CalleeName(call) != "~/internal/ioutil.CopyBuffer" || len(a) != 4 || fp == nil {
+			return false
+		}
+		dst, want := bind(strip(a[0])), bind(a[3])
+		if dst == nil || want == nil || !c09SameKey(dst, fp) {
+			return false
+		}
+		for _, prm := range ingest.Params {
+			if c09DescObjOf(prm).vals[want] {
+				return true
+			}
+		}
+		return false
+	}, 2)
 	var copied []Edge
 	for _, cp := range copies {
-		if e := ErrOf(cp); e != nil {
+		if e := ErrOf(cp.(ssa.CallInstruction)); e != nil {
 			ne, _, _ := NilTests(ingest, Aliases(e))
 			copied = append(copied, ne...)
 		}
@@ -441,24 +495,8 @@ func c10R3StoragePush(c *Ctx, R3 string) {
 			ok = false
 		}
 	}
-	c.Check(R3, in+"|nil-only-after-verified-copy", ingest.Pos(), ok && n > 0 && len(copied) > 0, ifelse(ok && n > 0, "every return with a nil error lies on the nil edge of ioutil.CopyBuffer's (size+digest verifying) error", "ingest can report success although the verifying copy failed or did not run"))
-	fp := ResultOf(temps[0], 0)
-	okW, okP := fp != nil, fp != nil
-	for _, cp := range copies {
-		if fp == nil || !c09SameKey(strip(cp.Common().Args[0]), fp) {
-			okW = false
-		}
-		// verified against the descriptor parameter
-		isParam := false
-		for _, prm := range ingest.Params {
-			if c09DescObjOf(prm).vals[cp.Common().Args[3]] {
-				isParam = true
-			}
-		}
-		if !isParam {
-			okW = false
-		}
-	}
+	c.Check(R3, in+"|nil-only-after-verified-copy", ingest.Pos(), ok && n > 0 && len(copied) > 0, ifelse(ok && n > 0 && len(copied) > 0, "every return with a nil error lies on the nil edge of ioutil.CopyBuffer's (size+digest verifying) error", "ingest can report success although the verifying copy (into the temporary file, against the expected descriptor) failed or did not run"))
+	okW, okP := len(copies) > 0, fp != nil
 	n = 0
 	for _, a := range RetAtoms(ingest, 0) {
 		if s, isConst := constString(a.Val); isConst && s == "" {
@@ -536,6 +574,27 @@ func c10R3StorePushTag(c *Ctx, R3 string, r *c08Roles) {
 				exists = append(exists, te...)
 			}
 		}
+		// … or a helper whose nil error implies exists == true (`if err := s.mustExist(ctx, desc); err != nil { return err }`)
+		for _, hc := range Calls(tag, func(string) bool { return true }) {
+			g := StaticCallee(hc)
+			if _, isCall := hc.(*ssa.Call); !isCall || g == nil || fnPkgPath(g) != pkgPath(c08Pkg) || len(g.Blocks) == 0 || ErrResultIndex(g.Signature) < 0 {
+				continue
+			}
+			var inner []Edge
+			for _, ec := range Calls(g, func(n string) bool { return strings.HasSuffix(n, ").Exists") }) {
+				if b := ResultOf(ec, 0); b != nil {
+					te, _ := BoolTests(g, Aliases(b))
+					inner = append(inner, te...)
+				}
+			}
+			if len(inner) == 0 || !c10NilImplies(g, inner) {
+				continue
+			}
+			if e := ErrOf(hc); e != nil {
+				ne, _, _ := NilTests(tag, Aliases(e))
+				exists = append(exists, ne...)
+			}
+		}
 		ts := tagSites(tag)
 		if len(ts) == 0 {
 			c.LostAnchor(R3, tn+": tag call")
@@ -545,6 +604,33 @@ func c10R3StorePushTag(c *Ctx, R3 string, r *c08Roles) {
 			c.Check(R3, tn+"|exists-before-index-entry", t.Pos(), ok, ifelse(ok, "the descriptor is tagged only on the exists==true edge of storage.Exists", "a descriptor can be tagged (and written to index.json) although its blob is not in the store"))
 		}
 	}
+}
+
+// c10NilImplies: g returns a nil error only on paths through one of the edges.
+func c10NilImplies(g *ssa.Function, edges []Edge) bool {
+	errIdx := ErrResultIndex(g.Signature)
+	if errIdx < 0 {
+		return false
+	}
+	ct := newCut().Edges(edges...)
+	n := 0
+	for _, a := range RetAtoms(g, errIdx) {
+		if ErrNilStatus(a.Val, 0) == NonNil {
+			continue
+		}
+		if _, isZero := a.Val.(zeroMarker); !isZero {
+			if _, isConst := a.Val.(*ssa.Const); !isConst {
+				if _, nonNil, _ := NilTests(g, Aliases(a.Val)); len(nonNil) > 0 && MustPass(a.Ret, newCut().Edges(nonNil...)) {
+					continue
+				}
+			}
+		}
+		n++
+		if !AtomMustPass(a, ct) {
+			return false
+		}
+	}
+	return n > 0
 }
 
 // c10R3DeleteGC: blobs are removed only after the index that no longer names
